@@ -18,6 +18,12 @@ VERIF = os.path.dirname(os.path.abspath(__file__))
 
 # (name, property, expected rule, expected fn substring, file, old, new)
 MUTANTS = [
+    ("display-error-replaced", "C08", "R-ERR-DISCARD", "run_display", "crates/runtime/src/vm.rs",
+     "                let mut display_context = DisplayContext::with_vm(self);\n                // Errors come from `@display` functions of contained values, so they're passed on\n                // as they are (a thrown value stays catchable, a timeout stays uncatchable).\n                other.display(&mut display_context)?;\n                self.set_register(result, display_context.result().into());\n                Ok(())\n",
+     "                let mut display_context = DisplayContext::with_vm(self);\n                match other.display(&mut display_context) {\n                    Ok(_) => {\n                        self.set_register(result, display_context.result().into());\n                        Ok(())\n                    }\n                    Err(_) => runtime_error!(\"failed to get display value\"),\n                }\n"),
+    ("try-count-popped-early", "C05", "R-TRY-COUNT", "compile_try_expression", "crates/bytecode/src/compiler.rs",
+     "        self.frame_mut().push_try_block();\n        self.compile_node(*try_block, ctx.with_register(try_result_register))?;\n        self.frame_mut().pop_try_block();\n",
+     "        self.frame_mut().push_try_block();\n        self.frame_mut().pop_try_block();\n        self.compile_node(*try_block, ctx.with_register(try_result_register))?;\n"),
     ("unwind-writes-result", "C04", "R-UNWIND-NO-RESULT", "pop_call_stack_on_error", "crates/runtime/src/vm.rs",
      "                    if let [.., caller, _] = self.call_stack.as_mut_slice() {\n                        caller.return_value_register = None;\n                    }\n",
      ""),
@@ -338,6 +344,23 @@ SEEDS = [
     ("C19_d", "C19", "R-RECURSIVE-READ"),
     ("C20_c", "C20", "R-SERDE-KINDS"),
     ("C20_d", "C20", "R-SERDE-NARROW"),
+    # round 5
+    ("C04_e", "C04", "R-TRY-COUNT"),
+    ("C04_f", "C04", "R-ITER-ERR"),
+    ("C05_e", "C05", "R-TRY-COUNT"),
+    ("C05_f", "C05", "R-NARROW"),
+    ("C07_e", "C07", "R-IMPORT"),
+    ("C07_f", "C07", "R-REGS"),
+    ("C08_e", "C08", "R-TIMEOUT-POLL"),
+    ("C08_f", "C08", "R-UNWIND-ALL"),
+    ("C12_e", "C12", "R-SPAN"),
+    ("C12_f", "C12", "R-FRAME-SAVE-RESTORE"),
+    ("C14_e", "C14", "R-MAP-ORDER"),
+    ("C14_f", "C14", "R-HASHEQ"),
+    ("C17_e", "C17", "R-DISPATCH-OPERANDS"),
+    ("C17_f", "C17", "R-BASE-WALK"),
+    ("C19_e", "C19", "R-SNAPSHOT-WRITEBACK"),
+    ("C19_f", "C19", "R-RECURSIVE-READ"),
     ("C16_d", "C16", "R-MATCH-TARGET"),
     ("C18_d", "C18", "R-FORCE-EXPORT"),
     # caught after further rules were derived from the misses
